@@ -385,6 +385,69 @@ def run_idrange(chk, quick, replay):
                           "idrange:lookup-differs", {"kind": "idrange", "cp": c, "expected": bool(m[1]), "observed": bool(got)})
 
 
+# ------------------------------------------------------------------------------------------------ the lexer's identifier alphabet
+
+IMP_IDLEX = ("From Coq Require Import List ZArith Bool. Import ListNotations.\n"
+             "From Zn.gen Require Import GenC04Tokens.\nFrom Zn.model Require Import Tokenize TokSpec TokDoc.\nOpen Scope Z_scope.\n"
+             "Definition acc_plain (c : Z) : bool := match lex_impl [30002; c] with\n"
+             "  | ([(ty, 0, 2, _); _], EEof) => ty =? g_TypeIdentifier | _ => false end.\n"
+             "Definition acc_quoted (c : Z) : bool := match lex_impl [96; 30002; c; 96] with\n"
+             "  | ([(ty, 0, 4, lit); _], EEof) => (ty =? g_TypeIdentifier) && (Z.of_nat (length lit) =? 2) | _ => false end.\n"
+             "Definition run_step (acc : Z -> bool) (s : Z * list Z * Z) : Z * list Z * Z := let '(c, runs, start) := s in\n"
+             "  if acc c then (c + 1, runs, if start <? 0 then c else start)\n"
+             "  else (c + 1, (if start <? 0 then runs else (c - 1) :: start :: runs), -1).\n"
+             "Definition runs_of (acc : Z -> bool) (lo : Z) (n : positive) : list Z :=\n"
+             "  let '(c, runs, start) := Pos.iter (run_step acc) (lo, [], -1) n in rev (if start <? 0 then runs else (c - 1) :: start :: runs).\n")
+
+
+def run_idlex(chk, quick, replay):
+    """the identifier alphabet as the LEXER sees it (isIdentifierChar and its callers), for every code point: 甲c is one
+    identifier / `甲c` is one quoted identifier — against the lexer model evaluated in Coq"""
+    if replay is not None:
+        spans = [(replay["cp"], replay["cp"])]
+    else:
+        spans = [(k * 0x4000, k * 0x4000 + 0x3fff) for k in range(0x110000 // 0x4000)]
+        if quick:
+            # the Basic Multilingual Plane completely (the table ends at U+FFDC), the other planes by their first block
+            spans = [sp for sp in spans if sp[0] < 0x10000 or sp[0] % 0x10000 == 0]
+    outs = core.harness("c04", "idlex", [{"lo": a, "hi": b, "timeout_ms": 60000} for a, b in spans], timeout_ms=60000)
+    terms = ["(%d, %d%%positive)" % (a, b - a + 1) for a, b in spans]
+    res = core.coq_run_cases("c04x", IMP_IDLEX, "fun p => [runs_of acc_plain (fst p) (snd p); runs_of acc_quoted (fst p) (snd p)]",
+                             terms, shard=4, timeout=1200)
+
+    def members(flat_or_runs, flat):
+        if flat:
+            it = list(zip(flat_or_runs[0::2], flat_or_runs[1::2]))
+        else:
+            it = [tuple(r) for r in flat_or_runs]
+        return it
+    for (a, b), o, m in zip(spans, outs, res):
+        chk.count(["idlex", a, b])
+        chk.dist("idlex:code-points", b - a + 1)
+        if "plain" not in o:
+            chk.violation("the lexer does not return normally on 甲+U+%04X..U+%04X: %s" % (a, b, json.dumps(o)[:160]), "idlex:abnormal",
+                          {"kind": "idlex", "cp": a, "observed": o})
+            continue
+        for which, mi in (("plain", 0), ("quoted", 1)):
+            got = set()
+            for x, y in members(o[which], False):
+                got.update(range(x, y + 1))
+            want = set()
+            for x, y in members(m[mi], True):
+                want.update(range(x, y + 1))
+            diff = sorted(got ^ want)
+            if diff:
+                c = diff[0]
+                form = "甲%s" % chr(c) if which == "plain" else "`甲%s`" % chr(c)
+                chk.violation("U+%04X %s the identifier alphabet for the lexer (%s is %sone identifier token) but the documented alphabet "
+                              "(the idRange table + the documented extra characters, as the lexer model has it) says the opposite; "
+                              "%d code points differ in U+%04X..U+%04X" % (c, "is in" if c in got else "is not in", form,
+                                                                          "" if c in got else "not ", len(diff), a, b),
+                              "idlex:%s-differs" % which, {"kind": "idlex", "cp": c, "form": which, "expected": c in want, "observed": c in got,
+                                                           "replay_cmd": "./check C04 --replay <this file>"})
+                break
+
+
 # ------------------------------------------------------------------------------------------------ tokens
 
 IMP_TOK = ("From Coq Require Import List ZArith Bool. Import ListNotations.\n"
@@ -588,6 +651,8 @@ def run(chk, replay=None):
         run_numbers(chk, quick, corpus, replay)
     if kind in (None, "idrange"):
         run_idrange(chk, quick, replay)
+    if kind in (None, "idlex"):
+        run_idlex(chk, quick, replay)
     if kind in (None, "tokens"):
         run_tokens(chk, quick, corpus, replay)
     if PRE["why"] and PRE["ok"]:
@@ -597,7 +662,8 @@ def run(chk, replay=None):
         "(classification; lengths <= 4/5 re-evaluated by classify_doc inside Coq, longer ones by a regex pre-filter whose "
         "disagreements are re-evaluated in Coq), plus seeded spellings up to ~60 characters (45% mutated) with the value compared "
         "to the correctly rounded double; idrange: IdInRange on every code point -16..0x11000F against the regenerated table, and "
-        "the binary-search model on all range boundaries; tokens: corpus, all pairs of keyword glyphs, all one-glyph deviations "
+        "the binary-search model on all range boundaries; idlex: for every code point c of the BMP and the first block of every other plane "
+        "(thorough: all 0x110000) whether 甲c / `甲c` is one identifier token for zh.NextToken against the lexer model evaluated in Coq; tokens: corpus, all pairs of keyword glyphs, all one-glyph deviations "
         "of the 3/4-glyph keywords, operator/follower matrix, and seeded unspaced texts (keywords, cut keywords, CJK/Latin/Greek/"
         "kana/hangul letters, numbers, + - * / . % _, backtick names, occasional space/punctuation/quote); distinct = distinct inputs; "
         "non-trivial = non-empty numeric spelling / text longer than one character")
